@@ -973,6 +973,16 @@ namespace vf
 
     inline void apply_inputs(graph_t& graph, const GridSpec& g, const FlowInputs& in, Rng* shuffle_rng = nullptr)
     {
+        // the two setters are independent requests: the state in force is (last mask, last base-level set) whatever the order
+        // in which they were given. The order is drawn from the inputs themselves (so that a replay issues the same calls).
+        std::uint64_t par = in.bl.size();
+        for (auto b : in.bl)
+            par += b;
+        for (std::size_t i = 0; i < in.mask.size(); ++i)
+            par += in.mask[i] ? i + 1 : 0;
+        const bool mask_first = ((par * 0x9E3779B97F4A7C15ull) >> 40) & 1;
+        if (mask_first && !in.mask.empty())
+            graph.set_mask(to_mask(g, in.mask));
         if (in.custom_bl)
         {
             std::vector<std::size_t> v = in.bl;
@@ -980,7 +990,7 @@ namespace vf
                 shuffle_rng->shuffle(v);
             graph.set_base_levels(v);
         }
-        if (!in.mask.empty())
+        if (!mask_first && !in.mask.empty())
             graph.set_mask(to_mask(g, in.mask));
     }
 
